@@ -17,12 +17,14 @@ from harness import core, paramalg as pa, runfamily as rf
 
 LEVEL = "model_checking"
 
-ACTIONS = ["Grow", "Twin", "Build", "MDeliver", "MCall", "MEq", "Clear", "MPickle", "Unpickle", "MCallCopy", "MClearCopy", "MSolve"]
+ACTIONS = ["Grow", "Twin", "Ship", "Build", "MShipDeliver", "MDeliver", "MCall", "MEq", "Clear", "MPickle", "Unpickle", "MCallCopy", "MClearCopy", "MSolve"]
 
 
 def neighbours(tree, prev):
     """Other expressions the tree is compared with (environment choice; TLC decides what == must answer)."""
     out = []
+    if pa.kinds(tree) & pa.SHIPPED:
+        return []
     if pa.kinds(tree) & pa.TWINS:
         # an expression with twins is only compared with expressions that have the same leaf in every position
         return [{"k": "N", "op": "sub" if tree["op"] != "sub" else "add", "l": tree["l"], "r": tree["r"]}]
@@ -39,7 +41,7 @@ def neighbours(tree, prev):
 
 def run(ctx):
     quick = ctx.quick
-    mod = 199 if quick else 1
+    mod = 251 if quick else 1
     deep = 9973 if quick else 211      # quick: ~300 trees of level 2, ~70 of level 3
     max_level = 3
     ctx.cov["bounds"] = {"ParamAlg": dict(leaves=["P2", "P3", "PT", "int 2", "float 0.5"], operators=["+", "-", "*", "/", "**"],
@@ -72,6 +74,7 @@ def run(ctx):
                            (dict(pa.MECH, MCacheKeyTime=False), "EvalIsPointwise", 1),
                            (dict(pa.MECH, MReuseEqual=True), "EvalIsPointwise", 1),
                            (dict(pa.MECH, MCacheKeyBuffer=True), "EvalIsPointwise", 1),
+                           (dict(pa.MECH, MRampClamp=True), "EvalIsPointwise", 1),
                            (dict(pa.MECH, MEqFlat=True), "EqIsStructural", 2)):
         sw = "/".join(k for k in mech if mech[k] != pa.MECH[k])
         cases.append((f"ParamAlg[{sw} as pinned/mutated, {inv}]", pa.model_cfg(lvl, 211, ctx.seed, mech, [inv]), inv))
@@ -85,7 +88,7 @@ def run(ctx):
     for it in items:
         # == is asked about neighbours chosen here and about every other SHAPE of the same flat reading exported by TLC
         work.append({"tree": it["tree"], "others": neighbours(it["tree"], prev) + list(it["eqs"])})
-        if not it["twin"]:
+        if not it["twin"] and not it["ship"]:
             prev = it["tree"]       # (never the twinned form: a leaf and its twin are not compared)
     nchunk = 1 if len(work) < 1500 else 48
     size = (len(work) + nchunk - 1) // nchunk
@@ -94,7 +97,7 @@ def run(ctx):
     # expressions handed to the solver: the solver domain (3-D leaves, finite operators) and a few that the
     # solver must refuse (a 2-D leaf cannot take the z the solver passes)
     sdom = [it for it in items if it["solver"]]
-    neg = [it for it in items if "P2" in pa.kinds(it["tree"]) and it["level"] <= 2 and not it["twin"]]
+    neg = [it for it in items if "P2" in pa.kinds(it["tree"]) and it["level"] <= 2 and not it["twin"] and not it["ship"]]
     rnd.shuffle(neg)
     nsolve = 60 if quick else 600
     keep = [it for it in sdom if it["level"] <= 1]
@@ -112,6 +115,12 @@ def run(ctx):
     ntwin = sum(1 for it in items if it["twin"])
     nflat = sum(len(it["eqs"]) for it in items)
     ctx.cov["expressions_enumerated"].update({"with_twins_under_equal_operands": ntwin, "same_flat_reading_pairs_compared": nflat})
+    nship = sum(1 for it in items if it["ship"])
+    ndown = sum(1 for it in items if "RD" in pa.kinds(it["tree"]))
+    nloop = sum(1 for it in items if "CL" in pa.kinds(it["tree"]))
+    ctx.cov["expressions_enumerated"].update({"on_shipped_leaves": nship, "with_ramp_down": ndown, "linear_in_current_loop": nloop})
+    if nship < 40 or ndown < 10 or nloop < 5:
+        raise core.MachineryFailure(f"C16: shipped leaves vacuous: {nship} expressions, {ndown} with a ramp down, {nloop} on a current loop")
     if ntwin < 15 or nflat < 50:
         raise core.MachineryFailure(f"C16: input dimensions vacuous: {ntwin} twinned expressions, {nflat} same-flat pairs")
     # deliveries that put OTHER content into memory already delivered at the same time, on expressions with a caching
